@@ -910,6 +910,14 @@ def laws(rng, tier, ctx):
         if rt != direct:
             yield Finding('violation', dict(tag='law-roundtrip', lines=call_lines(sig, args, kw, ('roundtrip',))),
                           'call_with_callargs(f, getcallargs(f, ...)) gives %r, f(...) gives %r' % (rt, direct))
+        # ... and again with ONE binding used twice (the caller does nothing to it in between; seeded C18-u3: the *args / **kwargs
+        # entries popped out of the caller's dict, so that the second use raised KeyError)
+        b = getcallargs(f, *args, **kw)
+        rt2 = [res_val(lambda: call_with_callargs(f, b)) for _ in range(2)]
+        count += 1
+        if rt2 != [direct, direct]:
+            yield Finding('violation', dict(tag='law-roundtrip-binding-reused', lines=call_lines(sig, args, kw, ('roundtrip',))),
+                          'b = getcallargs(f, ...); call_with_callargs(f, b) twice gives %r, f(...) gives %r' % (rt2, direct))
     # (2) transparency of every single decorator and of random stacks on every enumerated valid call; spec forwarded
     stacks = [[(c, deco_params(rng, c))] for c in CLASSES]
     for sig, args, kw in allcalls + list(axis_calls()) + rescalls:
